@@ -2986,7 +2986,7 @@ yyreduce:
 		int ret;
 		(yyval.a_parg).governor = asn1p_ref_new(yylineno, currentModule);
 		ret = asn1p_ref_add_component((yyval.a_parg).governor,
-			ASN_EXPR_TYPE2STR((yyvsp[(1) - (3)].a_type)), 1);
+			ASN_EXPR_TYPE2STR((yyvsp[(1) - (3)].a_type)), 0);
 		checkmem(ret == 0);
 		(yyval.a_parg).argument = (yyvsp[(3) - (3)].tv_str);
 	}
@@ -2998,7 +2998,7 @@ yyreduce:
 		int ret;
 		(yyval.a_parg).governor = asn1p_ref_new(yylineno, currentModule);
 		ret = asn1p_ref_add_component((yyval.a_parg).governor,
-			ASN_EXPR_TYPE2STR((yyvsp[(1) - (3)].a_type)), 1);
+			ASN_EXPR_TYPE2STR((yyvsp[(1) - (3)].a_type)), 0);
 		checkmem(ret == 0);
 		(yyval.a_parg).argument = (yyvsp[(3) - (3)].tv_str);
 	}
